@@ -1,5 +1,6 @@
 import GbVerif.Model.Lcd
 import GbVerif.Spec.Lcd
+import GbVerif.Proofs.NatBits
 /-!
 Symbolic lemmas for C14: the tick of the model factors through a function on positions
 (`stepOf`), which registers are untouched, how flags accumulate, arithmetic facts about `sched`.
@@ -106,7 +107,7 @@ theorem tick4_vbl (s : State) : hasVblank (tick4 s).2 = (stepOf (pos s)).vbl := 
         hasVblank_or, hasVblank_ofB, hasVblank_empty, hasVblank_vblank]
   · by_cases h1 : d + 4 ≥ 456 <;> by_cases h2 : l < 153 <;>
       simp [tick4, stepOf, pos, Mode.toNat, checkCurrentLine_eq, checkModeInterrupt_eq, h1, h2,
-        hasVblank_or, hasVblank_ofB, hasVblank_empty, hasVblank_vblank]
+        hasVblank_or, hasVblank_ofB, hasVblank_empty]
   · by_cases h1 : d + 4 ≥ 80 <;> simp [tick4, stepOf, pos, Mode.toNat, h1, hasVblank_empty]
   · by_cases h1 : d + 4 ≥ 188 <;>
       simp [tick4, stepOf, pos, Mode.toNat, checkModeInterrupt_eq, h1, hasVblank_ofB, hasVblank_empty]
@@ -123,7 +124,7 @@ theorem tick4_stat (s : State) :
         hasStat_or, hasStat_ofB, hasStat_empty, hasStat_vblank, enOf]
   · by_cases h1 : d + 4 ≥ 456 <;> by_cases h2 : l < 153 <;>
       simp [tick4, stepOf, pos, Mode.toNat, checkCurrentLine_eq, checkModeInterrupt_eq, h1, h2,
-        hasStat_or, hasStat_ofB, hasStat_empty, hasStat_vblank, enOf]
+        hasStat_or, hasStat_ofB, hasStat_empty, enOf]
   · by_cases h1 : d + 4 ≥ 80 <;> simp [tick4, stepOf, pos, Mode.toNat, h1, hasStat_empty]
   · by_cases h1 : d + 4 ≥ 188 <;>
       simp [tick4, stepOf, pos, Mode.toNat, checkModeInterrupt_eq, h1, hasStat_ofB, hasStat_empty, enOf]
@@ -193,6 +194,50 @@ theorem run_flags_lt (n : Nat) : ∀ s : State, (run n s).2 < 4 := by
     intro s
     rw [run_succ]
     exact Nat.or_lt_two_pow (n := 2) (tick4_flags_lt s) (ih _)
+
+/-! ### STAT write decodes bits 6..3 -/
+
+theorem and_bit_ne_zero (v i : Nat) (hi : i < 7) : (v &&& 2^i != 0) = v.testBit i := by
+  rw [NatBits.and_const_mod v (2^i) 7 (Nat.pow_lt_pow_right (by decide) hi), NatBits.testBit_mod v i 7 hi]
+  have hv : v % 2^7 < 128 := Nat.mod_lt _ (by decide)
+  generalize v % 2^7 = w at hv
+  have : ∀ i < 7, ∀ w < 128, (w &&& 2^i != 0) = w.testBit i := by decide
+  exact this i hi w hv
+
+theorem setStat_enOf (v : Nat) (s : State) : enOf (setStat v s).1 = Enables.ofByte v := by
+  have h6 := and_bit_ne_zero v 6 (by decide)
+  have h5 := and_bit_ne_zero v 5 (by decide)
+  have h4 := and_bit_ne_zero v 4 (by decide)
+  have h3 := and_bit_ne_zero v 3 (by decide)
+  simp only [setStat, enOf, Enables.ofByte]
+  rw [show (0x40 : Nat) = 2^6 from rfl, show (0x20 : Nat) = 2^5 from rfl,
+      show (0x10 : Nat) = 2^4 from rfl, show (0x08 : Nat) = 2^3 from rfl, h6, h5, h4, h3]
+
+/-! ### STAT read-back -/
+
+theorem beq_comm' (a b : Nat) : (a == b) = (b == a) := BEq.comm
+
+/-- `get_lcd_status` as a sum of disjoint bits -/
+def statOf (m : Mode) (e1 e2 e3 e4 b : Bool) : Nat :=
+  let status := 0
+  let status := if e1 then status ||| 0x40 else status
+  let status := if e2 then status ||| 0x20 else status
+  let status := if e3 then status ||| 0x10 else status
+  let status := if e4 then status ||| 0x08 else status
+  let status := if b then status ||| 4 else status
+  status ||| m.toNat
+
+theorem getStat_eq (s : State) : getStat s = statOf s.mode s.irqLyc s.irqM2 s.irqM1 s.irqM0 (s.line == s.lyc) := by
+  simp only [getStat, statOf, beq_comm' s.lyc s.line]
+
+theorem statOf_bits : ∀ (m : Mode) (e1 e2 e3 e4 b : Bool),
+    statOf m e1 e2 e3 e4 b % 4 = m.toNat ∧ (statOf m e1 e2 e3 e4 b).testBit 2 = b ∧
+    (statOf m e1 e2 e3 e4 b).testBit 3 = e4 ∧ (statOf m e1 e2 e3 e4 b).testBit 4 = e3 ∧
+    (statOf m e1 e2 e3 e4 b).testBit 5 = e2 ∧ (statOf m e1 e2 e3 e4 b).testBit 6 = e1 ∧
+    statOf m e1 e2 e3 e4 b < 128 ∧
+    statOf m e1 e2 e3 e4 b % 8 = m.toNat + (if b then 4 else 0) := by
+  intro m e1 e2 e3 e4 b
+  cases m <;> cases e1 <;> cases e2 <;> cases e3 <;> cases e4 <;> cases b <;> decide
 
 /-! ### arithmetic of the schedule -/
 
